@@ -57,7 +57,10 @@ Del(f, k) == [x \in DOMAIN f \ {k} |-> f[x]]
 StartOfId(i) == IF i \in DOMAIN st /\ st[i].id = i THEN i      \* the drivers number start instances by their id
                 ELSE IF \E s \in DOMAIN st : st[s].id = i THEN CHOOSE s \in DOMAIN st : st[s].id = i ELSE 0
 InCb(p) == Len(Get(cbs, p, <<>>)) > 0
+\* (in flight: from its first transmission on - a datagram with the id that arrives earlier answers something else,
+\*  e.g. an indication that carried the same id)
 InFlight(i) == StartOfId(i) # 0 /\ i \notin ended /\ st[StartOfId(i)].ret \in {"none", "nil", "wait"} /\ ~st[StartOfId(i)].ind
+               /\ i \in DOMAIN ws /\ Len(ws[i]) > 0
 WindowOpenFor(i) == \E p \in DOMAIN win : win[p].id = i
 \* a timeout callback for i is in progress in some goroutine (between the client-table delete and the write)
 InTimeoutCallback(i) == \E p \in DOMAIN cbs : Len(cbs[p]) > 0 /\ cbs[p][Len(cbs[p])].id = i /\ cbs[p][Len(cbs[p])].kind = "timeout"
@@ -79,6 +82,17 @@ N == cfg.maxattempts
 CallerOf(s) == IF s = 1 THEN "s1" ELSE IF s = 2 THEN "s2" ELSE "?"
 RtoOf(s) == IF s \in DOMAIN st THEN st[s].rto ELSE cfg.rto
 
+\* the start instance of the indication that goroutine p is writing (0 = none); an indication is no transaction, even
+\* when it carries the id of one
+DupIndWriter(p) ==
+  LET S == { s \in DOMAIN st : CallerOf(s) = p /\ st[s].ind /\ ~InCb(p) }
+  IN IF S = {} THEN 0 ELSE CHOOSE s \in S : TRUE
+
+WriteId(e) ==
+  IF InCb(e.p) THEN cbs[e.p][Len(cbs[e.p])].id
+  ELSE LET S == { s \in DOMAIN st : CallerOf(s) = e.p /\ st[s].ret = "none" } IN
+       IF S # {} THEN st[CHOOSE s \in S : TRUE].id ELSE e.id
+
 OkWrites(i) == SelectSeq(Get(ws, i, <<>>), LAMBDA w : w.ok)
 
 Step(n, e) ==
@@ -92,7 +106,8 @@ Step(n, e) ==
     [] e.k = "start_ret" ->
          LET s == st[e.s] IN
          /\ OnO("C10") => Require(~(e.err # "nil" /\ s.calls > 0), n, "handler-after-start-error",
-                                 [s |-> e.s, err |-> e.err, order |-> "handler-before-return", k4 |-> st[e.s].id \in k4])
+                                 [s |-> e.s, err |-> e.err, order |-> "handler-before-return", k4 |-> st[e.s].id \in k4,
+                                  no_transmission_yet |-> ~(st[e.s].id \in DOMAIN ws /\ Len(ws[st[e.s].id]) > 0)])
          /\ On("C15") => Require(s.afterClose => e.err = "closed", n, "start-after-close-not-refused", [s |-> e.s, err |-> e.err])
          \* Do returns once the invocation of its handler has finished (handler_done is logged when the handler returns)
          /\ On("C10") => Require((s.do /\ e.err = "nil") => s.fin >= 1, n, "do-returned-before-its-handler-finished",
@@ -141,8 +156,17 @@ Step(n, e) ==
          /\ win' = IF Len(Get(cbs, e.p, <<>>)) <= 1 THEN Del(win, e.p) ELSE win
          /\ texit' = IF e.kind = "timeout" THEN Set(texit, e.id, n) ELSE texit
          /\ UNCHANGED << cfg, st, ws, ended, closeRet, closeOK, connCloses, lastDel, exited, lastNow, pendGarbage, cbSeen, k4, k2, pend, closing >>
+    [] e.k = "write" /\ DupIndWriter(e.p) # 0 ->
+         \* an indication (it may carry the transaction id of another caller's transaction): its one write is not a
+         \* transmission of any transaction (bytes as given, nothing else to say)
+         /\ On("C11") => Require(e.raw = Trace[st[DupIndWriter(e.p)].line].raw, n, "transmission-differs-from-message-at-start",
+                                 [id |-> e.id, transmission |-> 0, got_len |-> Len(e.raw), want_len |-> Len(Trace[st[DupIndWriter(e.p)].line].raw)])
+         /\ UNCHANGED vars_noL
     [] e.k = "write" ->
-         LET i == e.id
+         \* whose transmission this is: decided by who writes (the retransmission path of a callback writes for the
+         \* callback's transaction, a caller inside Start for its own), not by what the bytes claim - an empty or
+         \* foreign buffer on the wire is a transmission of that transaction all the same
+         LET i == WriteId(e)
              s == StartOfId(i)
              retx == InCb(e.p)                          \* written from the retransmission path
              prior == Get(ws, i, <<>>)
@@ -191,6 +215,13 @@ Step(n, e) ==
               /\ Require(e.id = i, n, "event-for-another-transaction", [s |-> e.s, handler_id |-> i, event_id |-> e.id, k4 |-> i \in k4])
               /\ ((e.kind = "msg") => Require(Parse(e.msg).ok, n, "undecodable-datagram-delivered", [s |-> e.s, size |-> Len(e.msg)]))
               /\ ((e.kind = "msg") => Require(\E d \in Get(lastDel, e.id, {}) : Trace[d].raw = e.msg, n, "message-is-not-the-received-datagram", [s |-> e.s]))
+              \* ... and the attribute list of that Message is the list of that datagram (the reader reuses its Message)
+              /\ ((e.kind = "msg") => Require((Has(e, "attrs") /\ Parse(e.msg).ok) =>
+                                                  LET pa == Parse(e.msg).attrs IN
+                                                  /\ Len(e.attrs) = Len(pa)
+                                                  /\ \A a \in 1..Len(pa) : e.attrs[a][1] = pa[a].type /\ e.attrs[a][2] = pa[a].len
+                                                                            /\ (pa[a].len = 0 \/ e.attrs[a][3] = pa[a].off),
+                                                  n, "attributes-differ-from-the-received-datagram", [id |-> e.id, seen |-> Len(e.attrs)]))
          /\ OnO("C15") => Require(~closeRet, n, "handler-after-close", [s |-> e.s, kind |-> e.kind, p |-> e.p, k4 |-> i \in k4])
          /\ st' = Set(st, e.s, [s EXCEPT !.calls = @ + 1])
          /\ ended' = ended \cup {i}
@@ -203,6 +234,12 @@ Step(n, e) ==
               \* (timeout / closed events of a transaction that reach the fallback handler are not messages: the
               \*  property is silent about them)
               /\ ((e.kind = "msg") => Require(\E d \in Get(lastDel, e.id, {}) : Trace[d].raw = e.msg, n, "message-is-not-the-received-datagram", [id |-> e.id]))
+              /\ ((e.kind = "msg") => Require((Has(e, "attrs") /\ Parse(e.msg).ok) =>
+                                                  LET pa == Parse(e.msg).attrs IN
+                                                  /\ Len(e.attrs) = Len(pa)
+                                                  /\ \A a \in 1..Len(pa) : e.attrs[a][1] = pa[a].type /\ e.attrs[a][2] = pa[a].len
+                                                                            /\ (pa[a].len = 0 \/ e.attrs[a][3] = pa[a].off),
+                                                  n, "attributes-differ-from-the-received-datagram", [id |-> e.id, seen |-> Len(e.attrs)]))
               /\ ((e.kind = "msg") => Require(Parse(e.msg).ok, n, "undecodable-datagram-delivered", [id |-> e.id, size |-> Len(e.msg)]))
          /\ OnO("C15") => Require(~closeRet, n, "handler-after-close", [kind |-> e.kind, p |-> e.p])
          /\ pend' = IF e.kind = "msg" /\ pend # << >> /\ Trace[pend.line].raw = e.msg THEN << >> ELSE pend   \* (misdelivery is the business of the requirement above)
